@@ -480,7 +480,7 @@ def workload(tier, rng, shard, nshards, work):
         n1 = (3000 if tier == "quick" else 100000) // nshards
         for k in range(n1):
             if k % 20 == 0:
-                fn, width, rate, n, samples = make_wav(rng, work, "src.wav")
+                fn, width, rate, n, samples = make_wav(rng, work, "src.wav", n=rng.randrange(5000, 20000) if k % 300 == 40 else None)
                 gen_ = audio.AudioGenerator(width, rate)
             on_grid = rng.random() < 0.5
             lst = interval_list(rng, n, rate, on_grid)
